@@ -57,11 +57,20 @@ def _call(case, ref, hyp, norm=None):
             if case["module"]:
                 return M.EditDistance(case["eos"], case["include_eos"], norm, case["batch_first"], ci, cd, cs,
                                       case["warn"])(ref, hyp)
+            if case.get("kw"):
+                return F.edit_distance(hyp=hyp, ref=ref, warn=case["warn"], sub_cost=cs, del_cost=cd, ins_cost=ci,
+                                       batch_first=case["batch_first"], norm=norm, include_eos=case["include_eos"],
+                                       eos=case["eos"])
             return F.edit_distance(ref, hyp, case["eos"], case["include_eos"], norm, case["batch_first"], ci, cd, cs,
                                    case["warn"])
         if case["module"]:
             return M.PrefixEditDistances(case["eos"], case["include_eos"], norm, case["batch_first"], ci, cd, cs,
                                          case["padding"], case["exclude_last"], case["warn"])(ref, hyp)
+        if case.get("kw"):
+            return F.prefix_edit_distances(hyp=hyp, ref=ref, warn=case["warn"], exclude_last=case["exclude_last"],
+                                           padding=case["padding"], sub_cost=cs, del_cost=cd, ins_cost=ci,
+                                           batch_first=case["batch_first"], norm=norm,
+                                           include_eos=case["include_eos"], eos=case["eos"])
         return F.prefix_edit_distances(ref, hyp, case["eos"], case["include_eos"], norm, case["batch_first"], ci, cd,
                                        cs, case["padding"], case["exclude_last"], case["warn"])
 
@@ -366,7 +375,7 @@ def gen_random(chk, n):
                           include_eos=rng.random() < 0.5, norm=rng.random() < 0.4, batch_first=rng.random() < 0.5,
                           exclude_last=(api == "prefix" and rng.random() < 0.5), costs=costs,
                           padding=rng.choice(PADS + [rng.randint(-9, 9)]), warn=rng.random() < 0.2,
-                          stream="random", eos_kind=eos_kind))
+                          kw=rng.random() < 0.5, stream="random", eos_kind=eos_kind))
     return cases
 
 
@@ -393,7 +402,7 @@ def gen_cases(chk):
         c["stream"] = "corpus"
         cases.append(c)
     thorough = chk.tier == "thorough"
-    cases += gen_random(chk, 40000 if thorough else 1800)
+    cases += gen_random(chk, 20000 if thorough else 1800)
     cases += gen_zero_width(chk, 400 if thorough else 60)
     return [c for c in cases if in_space(c)]
 
@@ -425,8 +434,8 @@ def _cands(case):
     if H > 1:
         yield dict(case, hyp=[s[:-1] for s in case["hyp"]])
         yield dict(case, hyp=[s[1:] for s in case["hyp"]])
-    for key in ("norm", "batch_first", "exclude_last", "include_eos", "module", "warn"):
-        if case[key]:
+    for key in ("norm", "batch_first", "exclude_last", "include_eos", "module", "warn", "kw"):
+        if case.get(key):
             yield dict(case, **{key: False})
     if case["costs"] != [4, 4, 4]:
         yield dict(case, costs=[4, 4, 4])
@@ -511,7 +520,7 @@ def run(chk, cases=None):
     meta_n = 0
     meta_fail = []
     for i, c in enumerate(cases):
-        if replaying or streams[i] in ("random", "corpus") or i % 6 == 0:
+        if replaying or chk.tier != "thorough" and streams[i] in ("random", "corpus") or i % (3 if streams[i] != "exhaustive" else 12) == 0:
             meta_n += 1
             for what, vc, vo in metamorphic(c, outs[i], mrng):
                 meta_fail.append((i, what, vc, vo))
